@@ -303,11 +303,9 @@ func oracle(run *hx.Run, image bufimage.Image, pre *prepared, in caseInput, out,
 		if ok && isElem(l) {
 			if _, present := got[n]; !present {
 				includesPresent = false
-				if l.kind == "ext" {
-					fail("included-extension-silently-dropped", n+" was included, the filter succeeded, but the extension is absent (its value type is excluded)")
-				} else {
-					fail("included-element-missing", n+" was included but is absent from the result")
-				}
+				// (an included extension whose value type is excluded is an error now, like one whose
+				// extendee is excluded: an absent included extension is an ordinary missing element)
+				fail("included-element-missing", n+" was included but is absent from the result")
 			}
 			continue
 		}
@@ -331,11 +329,9 @@ func oracle(run *hx.Run, image bufimage.Image, pre *prepared, in caseInput, out,
 			break
 		}
 		if why := sameModuloDropped(o.desc, g.desc); why != "" {
-			class := "survivor-changed"
-			if strings.HasPrefix(why, "oneof") {
-				class = "oneof-index-not-renumbered"
-			}
-			fail(class, n+": "+why)
+			// (a kept oneof member that no longer names its oneof is a changed survivor like any
+			// other: the oneof-index family is repaired, it has no class of its own any more)
+			fail("survivor-changed", n+": "+why)
 			break
 		}
 		oc, hadLoc := origComments[o.file][o.path]
@@ -384,21 +380,9 @@ func oracle(run *hx.Run, image bufimage.Image, pre *prepared, in caseInput, out,
 				notIdem = "excluded-option-value-left-behind"
 			}
 		}
-		// an extension whose value type is excluded is dropped, but addElement recorded the import of
-		// its extendee's file BEFORE it looked at the value type: the first result keeps an import that
-		// nothing needs, the second application (the extension is gone) drops it
-		if notIdem == "not-idempotent" {
-			for n, l := range orig {
-				if l.kind != "ext" || ex.has(n) {
-					continue
-				}
-				fd := l.desc.(*descriptorpb.FieldDescriptorProto)
-				extendee, known := orig[trimDot(fd.GetExtendee())]
-				if known && extendee.file != l.file && !ex.has(trimDot(fd.GetExtendee())) && fd.TypeName != nil && ex.has(trimDot(fd.GetTypeName())) {
-					notIdem = "dropped-extension-leaves-extendee-import"
-				}
-			}
-		}
+		// (an extension dropped for its excluded value type used to leave the import of its extendee's
+		// file behind, which the second application removed: repaired, the family is an ordinary
+		// "not-idempotent" failure again)
 		if len(g.Include) > 0 || len(g.Exclude) > 0 {
 			again, _, err2 := runFilter(out, g)
 			switch {
@@ -428,15 +412,8 @@ func classifyLinkFailure(out bufimage.Image, got map[string]located, excludeOnly
 			return "exclude-map-value-type-unlinkable"
 		}
 	}
-	for _, l := range got {
-		if m, ok := l.desc.(*descriptorpb.DescriptorProto); ok {
-			for _, fd := range m.Field {
-				if fd.OneofIndex != nil && int(fd.GetOneofIndex()) >= len(m.OneofDecl) {
-					return "oneof-index-not-renumbered"
-				}
-			}
-		}
-	}
+	// (an out-of-range oneof index is no longer a recorded family: oneof indexes are renumbered
+	// when a oneof is dropped, so such a result is a plain "result-does-not-link")
 	// the element protodesc complains about (first quoted name) sits in a non-target file that an
 	// exclude-only filter never visited
 	if i := strings.IndexByte(msg, '"'); i >= 0 && excludeOnly {
